@@ -165,7 +165,7 @@ func checkMain(args []string) int {
 		fmt.Printf("no check for %s\n", prop)
 		return 2
 	}
-	eng, err := loadEngine(repo, filepath.Join(root, "contracts"))
+	eng, err := loadEngine(repo, envOr("VERIF_CONTRACTS", filepath.Join(root, "contracts")))
 	if err != nil {
 		fmt.Println("cannot load", repo, ":", err)
 		return 2
@@ -181,7 +181,7 @@ func checkMain(args []string) int {
 		run.runFunc(it)
 	}
 	run.solveAll()
-	known, err := loadKnown(filepath.Join(root, "known_findings.jsonl"))
+	known, err := loadKnown(envOr("VERIF_KNOWN", filepath.Join(root, "known_findings.jsonl")))
 	if err != nil {
 		fmt.Println(err)
 		return 2
